@@ -272,7 +272,7 @@ theorem loop_sound (e : Env) : ∀ (fuel : Nat) (fibers : List Fiber) (bm : Nat)
           rcases mem_dedup fibers [] hf with h1 | h1
           · exact hr f h1
           · simp at h1
-        obtain ⟨hk, hg'⟩ := pass_sound e bm 20000 (dedup fibers []) _ st false hp hded (by simp) hg
+        obtain ⟨hk, hg'⟩ := pass_sound e bm 4000 (dedup fibers []) _ st false hp hded (by simp) hg
         simp only at h
         by_cases hscan : (e.fl.scan && decide (bm + e.cs < e.maxBytes)) = true
         · rw [if_pos hscan] at h
